@@ -2,7 +2,7 @@
 
     Statements only; proofs in [Farm/Rewards.v] (on top of the invariant of [Farm/Proofs.v]).
     [reachable s] as in C05: any history from any genesis with an empty farm account. *)
-From Irismod Require Import Farm.Model Farm.Check Farm.Proofs Farm.Rewards Farm.Refund Farm.Budget Farm.Sound Farm.History Farm.Sound6.
+From Irismod Require Import Farm.Model Farm.Check Farm.Proofs Farm.Rewards Farm.Refund Farm.Budget Farm.Sound Farm.History Farm.Sound6 Farm.ProRata.
 
 (** RELEASE.  Every successful updatePool (each of stake, unstake, harvest, adjust, destroy and the
     end blocker goes through it), at any height, on any pool and ledger: the reward released for a
@@ -264,6 +264,51 @@ Theorem cacl_rewards_is_act :
     /\ nth i db 0 = new_debt (r_rps r) l (nth i ds 0) delta.
 Proof. exact cacl_is_act. Qed.
 Print Assumptions cacl_rewards_is_act.
+
+(** PRO RATA on histories of the model.  [paid_in], [fair_in], [acts_in] are read off the history itself: the reward
+    coin of the rule's denomination in the responses of the farmer's successful stake / harvest / unstake on the pool;
+    (growth of the rule's per-share value in the step) * (the stake he held before it); the number of those
+    interactions.  ([ProRata.sim_run] shows that the history, projected by [ProRata.events], drives the event
+    abstraction above step for step.)  From any reachable state in which the pool exists, the rule is its j-th and the
+    farmer holds no stake in it, over ANY further history: *)
+Theorem payout_close_to_fair_share_on_histories :
+  forall (w pid : Z) (j : nat) (steps : list step) (s : state) (r : rule),
+    reachable s -> Forall valid_step steps -> rule_j pid j s = Some r -> rec_of w pid s = None ->
+    hist_sum (paid_in w pid j) s steps * P18 <= hist_sum (fair_in w pid j) s steps
+    /\ (rec_of w pid (run s steps) = None ->
+        hist_sum (fair_in w pid j) s steps - hist_sum (paid_in w pid j) s steps * P18
+        <= hist_sum (acts_in w pid) s steps * (P18 - 1)).
+Proof. intros w pid j steps s r R. exact (payout_model_lemma w pid j steps s r (reachable_inv _ R)). Qed.
+Print Assumptions payout_close_to_fair_share_on_histories.
+
+Theorem harvest_frequency_independent_on_histories :
+  forall (w pid : Z) (j : nat) (steps1 : list step) (s1 : state) (r1 : rule) (steps2 : list step) (s2 : state) (r2 : rule),
+    reachable s1 -> Forall valid_step steps1 -> rule_j pid j s1 = Some r1 -> rec_of w pid s1 = None ->
+    reachable s2 -> Forall valid_step steps2 -> rule_j pid j s2 = Some r2 -> rec_of w pid s2 = None ->
+    rec_of w pid (run s1 steps1) = None -> rec_of w pid (run s2 steps2) = None ->
+    hist_sum (fair_in w pid j) s1 steps1 = hist_sum (fair_in w pid j) s2 steps2 ->
+    - (hist_sum (acts_in w pid) s1 steps1 * (P18 - 1))
+    <= (hist_sum (paid_in w pid j) s1 steps1 - hist_sum (paid_in w pid j) s2 steps2) * P18
+    <= hist_sum (acts_in w pid) s2 steps2 * (P18 - 1).
+Proof.
+  intros w pid j steps1 s1 r1 steps2 s2 r2 R1 V1 J1 N1 R2. 
+  exact (harvest_frequency_model_lemma w pid j steps1 s1 r1 steps2 s2 r2 (reachable_inv _ R1) V1 J1 N1 (reachable_inv _ R2)).
+Qed.
+Print Assumptions harvest_frequency_independent_on_histories.
+
+(** non-vacuity: farmer 2 joins farmer 1 (stake 1 next to 2) in a pool paying 1 per block, harvests once and leaves:
+    exact share 2.33..., paid 1, three interactions; the hypotheses hold of the state the history starts from. *)
+Example c06_prorata_nonvacuous :
+  let bk : ledger := fold_left (fun l a => fold_left (fun l' d => credit l' a d 1000000) [0; 1; 2; 3] l) [0; 1; 2] [] in
+  let s1 := run (init bk 2) [Msg (CreatePool 0 0 2 true [(3, 1000, 1)]); NextBlock; Msg (Stake 1 1 0 2)] in
+  let steps := [NextBlock; Msg (Stake 2 1 0 1); NextBlock; NextBlock; NextBlock; NextBlock; Msg (Harvest 2 1);
+                NextBlock; NextBlock; NextBlock; Msg (Unstake 2 1 0 1); NextBlock] in
+  (exists r, rule_j 1 0 s1 = Some r) /\ rec_of 2 1 s1 = None /\ rec_of 2 1 (run s1 steps) = None
+  /\ (hist_sum (paid_in 2 1 0) s1 steps, hist_sum (fair_in 2 1 0) s1 steps, hist_sum (acts_in 2 1) s1 steps)
+     = (1, 2333333333333333333, 3).
+Proof.
+  cbv zeta. split; [eexists; vm_compute; reflexivity|]. split; [vm_compute; reflexivity|]. split; vm_compute; reflexivity.
+Qed.
 
 (** non-vacuity: a valid event list with fractional per-share values; the farmer leaves having been
     paid 6 of an exact share of 6.66..., after 4 interactions *)
